@@ -154,6 +154,9 @@ func newFakeIdp() *fakeIdp {
 			"id_token_signing_alg_values_supported": []string{"RS256"}, "code_challenge_methods_supported": []string{"S256"},
 			"response_types_supported": []string{"code"}, "subject_types_supported": []string{"public"},
 		}
+		if globalPkceMethods != nil { // what the provider says about PKCE methods never weakens what the relying party sends: S256, always
+			doc["code_challenge_methods_supported"] = globalPkceMethods
+		}
 		if ip.acrSupported != nil {
 			doc["acr_values_supported"] = ip.acrSupported
 		}
@@ -470,3 +473,6 @@ func (l *lostWriter) Header() http.Header {
 }
 func (l *lostWriter) Write(b []byte) (int, error) { return len(b), nil }
 func (l *lostWriter) WriteHeader(int)             {}
+
+// globalPkceMethods: when set, every fake provider created from now on advertises these code_challenge_methods_supported (set by the c13 driver per variant)
+var globalPkceMethods []string
